@@ -4,7 +4,7 @@ from fractions import Fraction as F
 from hypothesis import strategies as st
 
 from vlib import engine
-from vlib.core import Violation, guarded, lib_call
+from vlib.core import Violation, engine_limits, guarded, lib_call
 
 ID = "C04"
 DESIGN_REF = "3/C04"
@@ -78,7 +78,8 @@ def check(spec, ctx):
         d = Distributor(dict(spec["opts"]))
         return nodes, d.distribute(nodes), None
 
-    nodes, layers, f = guarded(lambda: lib_call(thunk), ctx)
+    secs, budget = engine_limits(len(lbls))
+    nodes, layers, f = guarded(lambda: lib_call(thunk), ctx, secs, budget)
     if mode == "force":
         O = engine.merged(spec["opts"])
         lw = None if (O["minPos"] is None or O["maxPos"] is None) else F(O["maxPos"]) - F(O["minPos"])
